@@ -66,6 +66,12 @@ void rt_print_trace(void) {
   printf("\n");
 }
 
+void rt_print_trace_crash(int sig) {
+  for (long i = 0; i < ntrace; i++)
+    printf("%s%ld %ld %ld %ld", i ? " " : "", trace[i].tid, trace[i].loc, trace[i].kind, trace[i].val);
+  printf("%s-9 -9 -9 %d\n", ntrace ? " " : "", sig);
+}
+
 /* ---------- baton ---------- */
 enum { S_NONE = 0, S_RUNNING, S_ATPOINT, S_BLOCKED, S_WOKEN, S_DONE };
 static int tstate[RT_MAX_THREADS];
@@ -74,6 +80,7 @@ static int gate[RT_MAX_THREADS];   /* futex words: 1 = go */
 static int cgate;                  /* controller futex */
 static __thread int rt_tid = -1;
 static int rt_nthreads;
+volatile int rt_stop_now = 0;   /* set by a participant (T2: the main fiber when it is done): the run ends */
 static void (*rt_body)(int);
 
 /* pending plain write whose value is read back at the next point */
@@ -194,6 +201,7 @@ int rt_run(int nthreads, void (*body)(int), const int* sched, int nsched, int dr
   for (int t = 0; t < nthreads; t++) grant(t);
   for (int i = 0; i < nsched; i++) {
     int t = sched[i];
+    if (rt_stop_now) break;
     if (t < 0 || t >= nthreads) continue;
     if (tstate[t] == S_ATPOINT || tstate[t] == S_WOKEN) grant(t);
   }
@@ -201,9 +209,11 @@ int rt_run(int nthreads, void (*body)(int), const int* sched, int nsched, int dr
   while (live && steps < drain_max) {
     live = 0;
     for (int t = 0; t < nthreads && steps < drain_max; t++) {
+      if (rt_stop_now) { live = 0; break; }
       if (tstate[t] == S_ATPOINT || tstate[t] == S_WOKEN) { grant(t); steps++; live = 1; }
     }
   }
+  if (rt_stop_now) return 0;   /* the others idle forever */
   int stuck = 0;
   for (int t = 0; t < nthreads; t++) if (tstate[t] != S_DONE) stuck = 1;
   if (stuck) {
